@@ -383,6 +383,9 @@ structure Doc where
 structure Inner where
   sessions : List (Nat × Session) := []
   docs : List (List Name × Doc) := []
+  /-- `retired_version`: highest version of any document that is no longer tracked (as of the
+  repair of C19-version-reuse) -/
+  floor : Nat := 0
   audit : Nat := 0
   nextTok : Nat := 0
   deriving Repr
@@ -426,18 +429,27 @@ def ensureEditor (i : Inner) (tok now : Nat) : Inner × Option Err :=
 /-- `record_fs_audit_event` (only the length is observable through `health`) -/
 def recordAudit (i : Inner) : Inner := { i with audit := min (i.audit + 1) maxAudit }
 
+/-- `IdeStateInner::first_version`: a document that starts being tracked gets a version above
+every retired one -/
+def firstVersion (floor : Nat) : Nat := satSucc floor
+
+/-- maximum of `floor` and the versions of the documents in `dropped` (`retire_document` for each) -/
+def retireAll (floor : Nat) (dropped : List (List Name × Doc)) : Nat :=
+  dropped.foldl (fun m e => max m e.2.version) floor
+
 /-- The `or_insert_with` + "disk differs ⇒ take it and bump" block shared by `open_source`,
-`apply_source`, `build_analysis_context` and `upsert_tracked_document`. -/
-def syncDoc (e : Option Doc) (disk : List Char) : Doc :=
+`apply_source`, `build_analysis_context` and `upsert_tracked_document`; `first` is
+`first_version()`. -/
+def syncDoc (e : Option Doc) (disk : List Char) (first : Nat) : Doc :=
   match e with
-  | none => { content := disk, version := 1 }
+  | none => { content := disk, version := first }
   | some e => if e.content ≠ disk then { content := disk, version := satSucc e.version } else e
 
 /-- Locked section of `apply_source` after the role check.  `inl (cur, doc)` = conflict (the synced
 entry is kept), `inr doc` = success (content written). -/
-def applyDoc (e : Option Doc) (disk : List Char) (expected : Nat) (new : List Char) :
+def applyDoc (e : Option Doc) (disk : List Char) (expected : Nat) (new : List Char) (first : Nat) :
     Doc × Option Nat :=
-  let d := syncDoc e disk
+  let d := syncDoc e disk first
   if d.version ≠ expected then (d, none)
   else ({ content := new, version := satSucc d.version }, some (satSucc d.version))
 
@@ -524,7 +536,7 @@ def openSource (w : World) (tok : Nat) (path : List Char) : Out :=
   match ensureSession w.inner tok w.now with                       -- state lock taken here
   | (i, none) => fail { w with inner := i } .unauthorized [.read q]
   | (i, some s) =>
-    let d := syncDoc (lookupKey i.docs parts) disk
+    let d := syncDoc (lookupKey i.docs parts) disk (firstVersion i.floor)
     { res := .opened parts disk d.version (!s.editor)
       world := { w with inner := { i with docs := setKey i.docs parts d } }
       effects := [.read q] }
@@ -549,7 +561,7 @@ def applySource (w : World) (tok : Nat) (path : List Char) (expected : Nat) (con
   | (i, some s) =>
   if !s.editor then fail { w with inner := i } .forbidden [.read q]
   else
-    match applyDoc (lookupKey i.docs parts) disk expected content with
+    match applyDoc (lookupKey i.docs parts) disk expected content (firstVersion i.floor) with
     | (d, none) =>
       { res := .err .conflict (some d.version)
         world := { w with inner := { i with docs := setKey i.docs parts d } }
@@ -559,7 +571,7 @@ def applySource (w : World) (tok : Nat) (path : List Char) (expected : Nat) (con
       | none =>
         -- `fs::write` failed: the synced (not yet updated) entry stays
         { res := .err .internal none
-          world := { w with inner := { i with docs := setKey i.docs parts (syncDoc (lookupKey i.docs parts) disk) } }
+          world := { w with inner := { i with docs := setKey i.docs parts (syncDoc (lookupKey i.docs parts) disk (firstVersion i.floor)) } }
           effects := [.read q] }
       | some (fs', q') =>
         { res := .written parts v
@@ -599,21 +611,27 @@ def createEntry (w : World) (tok : Nat) (path : List Char) (isDir : Bool)
     match writeFile fs1 joined payload with
     | none => fail { w with fs := fs1, inner := i } .internal (made.map .mkdir)
     | some (fs2, q) =>
-      let version :=
+      -- the path did not exist: a document still tracked for it is retired, the new one starts
+      -- above every retired version
+      let floor' :=
         match lookupKey i.docs parts with
-        | none => 1
-        | some e => max e.version 1
+        | none => i.floor
+        | some e => max i.floor e.version
+      let version := firstVersion floor'
       { res := .fsres parts false (some version)
         world := { w with fs := fs2
-                          inner := recordAudit { i with docs := setKey i.docs parts { content := payload, version := version } } }
+                          inner := recordAudit { i with docs := setKey i.docs parts { content := payload, version := version }
+                                                        floor := floor' } }
         effects := made.map .mkdir ++ [.write q] }
 
-/-- re-key the tracked documents below a renamed directory (`old_norm` → `new_norm`), bumping -/
-def remapDocs (docs : List (List Name × Doc)) (old new : List Name) : List (List Name × Doc) :=
+/-- re-key the tracked documents below a renamed directory (`old_norm` → `new_norm`): every moved
+document is retired under its old key and starts under the new key with `version` -/
+def remapDocs (docs : List (List Name × Doc)) (old new : List Name) (version : Nat) :
+    List (List Name × Doc) :=
   let moved := docs.filter fun e => old.isPrefixOf e.1
   let kept := docs.filter fun e => !old.isPrefixOf e.1
   moved.foldl (fun acc e =>
-    setKey acc (new ++ e.1.drop old.length) { e.2 with version := satSucc e.2.version }) kept
+    setKey acc (new ++ e.1.drop old.length) { e.2 with version := version }) kept
 
 /-- `rename_entry` (as of commit 60787ea: session check before `create_dir_all`) -/
 def renameEntry (w : World) (tok : Nat) (path newPath : List Char) (writeEnabled : Bool) : Out :=
@@ -644,13 +662,18 @@ def renameEntry (w : World) (tok : Nat) (path newPath : List Char) (writeEnabled
   match renamePath fs1 oldJ newJ with
   | none => fail { w with fs := fs1, inner := i } .internal (made.map .mkdir)
   | some (fs2, qo, qn) =>
+    let floor' :=
+      if oldIsDir then retireAll i.floor (i.docs.filter fun e => oldParts.isPrefixOf e.1)
+      else match lookupKey i.docs oldParts with
+        | none => i.floor
+        | some e => max i.floor e.version
     let docs :=
-      if oldIsDir then remapDocs i.docs oldParts newParts
+      if oldIsDir then remapDocs i.docs oldParts newParts (firstVersion floor')
       else match lookupKey i.docs oldParts with
         | none => i.docs
-        | some e => setKey (dropKey i.docs oldParts) newParts { e with version := satSucc e.version }
+        | some e => setKey (dropKey i.docs oldParts) newParts { e with version := firstVersion floor' }
     { res := .fsres newParts oldIsDir none
-      world := { w with fs := fs2, inner := recordAudit { i with docs := docs } }
+      world := { w with fs := fs2, inner := recordAudit { i with docs := docs, floor := floor' } }
       effects := made.map .mkdir ++ [.move qo qn] }
 
 /-- `delete_entry` -/
@@ -675,8 +698,14 @@ def deleteEntry (w : World) (tok : Nat) (path : List Char) (writeEnabled : Bool)
     let docs :=
       if isDir then i.docs.filter fun e => !parts.isPrefixOf e.1
       else dropKey i.docs parts
+    -- `retire_document` for every dropped key
+    let floor' :=
+      if isDir then retireAll i.floor (i.docs.filter fun e => parts.isPrefixOf e.1)
+      else match lookupKey i.docs parts with
+        | none => i.floor
+        | some e => max i.floor e.version
     { res := .fsres parts isDir none
-      world := { w with fs := fs', inner := recordAudit { i with docs := docs } }
+      world := { w with fs := fs', inner := recordAudit { i with docs := docs, floor := floor' } }
       effects := [.remove q] }
 
 /-- the `ensure_session(..)?; drop(guard)` prologue of the read-only operations -/
@@ -866,13 +895,16 @@ structure Client where
   committed -/
   passed : Option Pending := none
 
-/-- a successful `apply_source` -/
+/-- a successful write of the file: `apply_source`, `create_entry` (`expected` = the retired floor
+the new document starts above, `diskBefore = none`) or `rename_symbol` (`expected` = the version
+of the document it read under the lock) -/
 structure Success where
   client : Nat
   expected : Nat
   version : Nat
   content : Content
-  /-- ghost: content the writer had been given with `expected` -/
+  /-- ghost: content the writer had been given with `expected` (`rename_symbol`: what it read
+  under the lock) -/
   base : Option Content
   /-- ghost: what was on disk when the write happened -/
   diskBefore : Option Content
@@ -880,14 +912,24 @@ structure Success where
 structure PState where
   disk : Option Content
   entry : Option Doc := none
+  /-- `retired_version` (one counter for all documents of the state) -/
+  floor : Nat := 0
   clients : Nat → Client := fun _ => {}
   /-- chronological -/
   successes : List Success := []
 
+/-- the version a reader of the tracked state sees: the document's, or the retired floor while no
+document is tracked (ghost: only `Pending.seenVersion` uses it) -/
 def curVer (s : PState) : Nat :=
   match s.entry with
   | some e => e.version
-  | none => 0
+  | none => s.floor
+
+/-- `retired_version` after `retire_document` of this file's key -/
+def retired (s : PState) : Nat :=
+  match s.entry with
+  | some e => max s.floor e.version
+  | none => s.floor
 
 def upd (f : Nat → Client) (i : Nat) (c : Client) : Nat → Client := fun j => if j = i then c else f j
 
@@ -904,13 +946,21 @@ inductive Step where
   | override (t : Content)
   /-- `build_analysis_context`: read under the lock and sync -/
   | syncAll
-  /-- `delete_entry` (or `rename_entry` away): file and tracked document are dropped -/
+  /-- `delete_entry` (or `rename_entry` away): the file is removed and its tracked document is
+  retired (`retire_document`) -/
   | delete
-  /-- `create_entry` -/
-  | create (payload : Content)
-  /-- `rename_symbol`: writes `result` computed from the override buffer (or the disk) under the
-  lock, without any expected version -/
-  | symRename (buffer : Option Content) (result : Content)
+  /-- the tracked document is retired while the file stays (`ensure_analysis_cache` evictions,
+  `set_active_project` away and back) -/
+  | evict
+  /-- a document of ANOTHER file with version `k` is retired: the floor is shared -/
+  | retireOther (k : Nat)
+  /-- `create_entry` by client `i` (or `rename_entry` of another file to this path): a document
+  still tracked is retired, the new one starts at `first_version()` -/
+  | create (i : Nat) (payload : Content)
+  /-- `rename_symbol` by client `i`: under ONE lock hold it refuses a buffer that differs from the
+  disk (as of the repair of C19-rename-symbol-bypass), otherwise reads the file, writes `result`
+  and bumps — a read-modify-write on the latest content -/
+  | symRename (i : Nat) (buffer : Option Content) (result : Content)
   /-- a successful `apply_source` through ANOTHER document key that names the same file (the key is
   the normalised request string, so an in-root directory link gives one file several keys): the
   disk changes, this key's tracked document does not -/
@@ -922,19 +972,32 @@ inductive Step where
   | splitWrite (i : Nat)
   | splitCommit (i : Nat)
 
-/-- the steps covered by the optimistic-concurrency protocol -/
-def Step.versioned : Step → Bool
-  | .beginOpen _ | .beginApply .. | .finish _ | .override _ | .syncAll => true
-  | _ => false
+/-- the steps covered by the optimistic-concurrency protocol: everything the code does to one
+document key; excluded are a write through a second key of the same file (open finding
+C19-alias-keys) and the torn variant that is not the code's behaviour -/
+def Step.covered : Step → Bool
+  | .aliasWrite _ | .splitCheck _ | .splitWrite _ | .splitCommit _ => false
+  | _ => true
+
+/-- how far a step can raise the version counters (`u64` versions saturate; the theorems assume
+the sum over the trace stays below `u64::MAX`) -/
+def Step.cost : Step → Nat
+  | .retireOther k => k + 2
+  | _ => 2
+
+def traceCost : List Step → Nat
+  | [] => 0
+  | st :: rest => st.cost + traceCost rest
 
 /-- **The locked section of `apply_source` as ONE transition**: resync with the earlier unlocked
 read, version check, `fs::write`, bump and commit all happen while `inner` is held
 (`ide.rs`, `apply_source`: one `guard` from `ensure_session` to the end of the function), so no
 step of another client can fall between the check and the commit.  `c19_no_lost_update_partial`,
 `c19_version_chain_partial`, `c19_one_success_per_version_partial` and
-`c19_disk_is_last_success_partial` depend on exactly this. -/
+`c19_disk_is_last_success_partial` depend on exactly this.  `rename_symbol` runs the same section
+with a read taken under the lock. -/
 def applyLocked (s : PState) (i : Nat) (p : Pending) : PState :=
-  match applyDoc s.entry p.disk p.expected p.new with
+  match applyDoc s.entry p.disk p.expected p.new (firstVersion s.floor) with
   | (d, none) =>
     { s with entry := some d, clients := upd s.clients i { (s.clients i) with pending := none } }
   | (d, some v) =>
@@ -964,31 +1027,42 @@ def next (s : PState) : Step → PState
     | none => s
     | some p =>
       if !p.isApply then
-        let d := syncDoc s.entry p.disk
+        let d := syncDoc s.entry p.disk (firstVersion s.floor)
         { s with entry := some d
                  clients := upd s.clients i { issued := (d.version, p.disk) :: (s.clients i).issued, pending := none } }
       else applyLocked s i p
-  | .override t => { s with entry := some (syncDoc s.entry t) }
+  | .override t => { s with entry := some (syncDoc s.entry t (firstVersion s.floor)) }
   | .syncAll =>
     match s.disk with
-    | some d => { s with entry := some (syncDoc s.entry d) }
+    | some d => { s with entry := some (syncDoc s.entry d (firstVersion s.floor)) }
     | none => s
-  | .delete => { s with disk := none, entry := none }
-  | .create payload =>
-    match s.disk with
-    | some _ => s
-    | none =>
+  | .delete => { s with disk := none, entry := none, floor := retired s }
+  | .evict => { s with entry := none, floor := retired s }
+  | .retireOther k => { s with floor := max s.floor k }
+  | .create i payload =>
+    match s.disk, (s.clients i).pending with
+    | none, none =>
+      let v := firstVersion (retired s)
       { s with disk := some payload
-               entry := some { content := payload
-                               version := match s.entry with
-                                 | none => 1
-                                 | some e => max e.version 1 } }
-  | .symRename buffer result =>
-    match s.disk with
-    | none => s
-    | some d =>
-      let e := syncDoc s.entry (buffer.getD d)
-      { s with disk := some result, entry := some { content := result, version := satSucc e.version } }
+               entry := some { content := payload, version := v }
+               floor := retired s
+               clients := upd s.clients i { (s.clients i) with issued := (v, payload) :: (s.clients i).issued }
+               successes := s.successes ++ [{ client := i, expected := retired s, version := v
+                                              content := payload, base := none, diskBefore := none }] }
+    | _, _ => s
+  | .symRename i buffer result =>
+    match s.disk, (s.clients i).pending with
+    | some d, none =>
+      if buffer.any (· ≠ d) then
+        -- refused with a conflict; the tracked document is synced with the disk
+        { s with entry := some (syncDoc s.entry d (firstVersion s.floor)) }
+      else
+        -- `build_analysis_context` syncs with the disk, the result is written and the version
+        -- bumped: exactly the locked section of a save whose read happened under the lock and
+        -- whose expected version is the current one
+        applyLocked s i { isApply := true, expected := (syncDoc s.entry d (firstVersion s.floor)).version
+                          new := result, disk := d, base := some d, seenVersion := curVer s }
+    | _, _ => s
   | .aliasWrite new =>
     match s.disk with
     | none => s
@@ -997,7 +1071,7 @@ def next (s : PState) : Step → PState
     match (s.clients i).pending with
     | none => s
     | some p =>
-      let d := syncDoc s.entry p.disk
+      let d := syncDoc s.entry p.disk (firstVersion s.floor)
       if d.version ≠ p.expected then
         { s with entry := some d, clients := upd s.clients i { (s.clients i) with pending := none } }
       else
@@ -1016,6 +1090,18 @@ def next (s : PState) : Step → PState
                clients := upd s.clients i { issued := (v, p.new) :: (s.clients i).issued }
                successes := s.successes ++ [{ client := i, expected := p.expected, version := v
                                               content := p.new, base := p.base, diskBefore := s.disk }] }
+
+/-- content of the last successful write, `d0` if there was none -/
+def lastContent (d0 : Content) (l : List Success) : Content :=
+  match l.getLast? with
+  | some ev => ev.content
+  | none => d0
+
+/-- every success found on disk exactly the content of the previous success (or the initial one),
+or no file at all (it had been removed by `delete_entry`) -/
+def chainOk : Content → List Success → Prop
+  | _, [] => True
+  | d, ev :: rest => (ev.diskBefore = some d ∨ ev.diskBefore = none) ∧ chainOk ev.content rest
 
 def run (s : PState) : List Step → PState
   | [] => s
